@@ -442,6 +442,49 @@ val to_N : byte -> n
 
 val of_N : n -> byte option
 
+val w : n
+
+val w64 : n -> n
+
+type fsSuper = { size : n; nLog : n; nBlockBitmap : n; nInodeBitmap : 
+                 n; nInodeBlk : n; maxaddr : n }
+
+val nBlockBitmap : fsSuper -> n
+
+val mkFsSuper : n -> fsSuper
+
+val maxBnum : fsSuper -> n
+
+val bitmapBlockStart : fsSuper -> n
+
+val bitmapInodeStart : fsSuper -> n
+
+val inodeStart : fsSuper -> n
+
+val dataStart : fsSuper -> n
+
+val nInode : fsSuper -> n
+
+val inum2Addr : fsSuper -> n -> n * n
+
+val nBITBLOCK : n
+
+val lOGSIZE : n
+
+val markAlloc_sane : fsSuper -> bool
+
+val mk_bit : fsSuper -> n -> bool
+
+val mk_ibit : n -> bool
+
+val fresh_free_blocks : fsSuper -> n
+
+val fresh_free_inodes : fsSuper -> n
+
+val layout_ok_b : n -> bool
+
+val bitmap_ok_b : n -> n -> bool
+
 type decision = bool
 
 val decide : decision -> bool
@@ -519,9 +562,9 @@ type ('a, 'c) elements = 'c -> 'a list
 
 val elements0 : ('a1, 'a2) elements -> 'a2 -> 'a1 list
 
-type 'c size = 'c -> nat
+type 'c size0 = 'c -> nat
 
-val size0 : 'a1 size -> 'a1 -> nat
+val size1 : 'a1 size0 -> 'a1 -> nat
 
 val true_dec : decision
 
@@ -618,7 +661,7 @@ val list_countable :
 
 val n_countable : n countable
 
-val set_size : ('a1, 'a2) elements -> 'a2 size
+val set_size : ('a1, 'a2) elements -> 'a2 size0
 
 type ('k, 'a, 'm) finMapToList = 'm -> ('k * 'a) list
 
@@ -638,7 +681,7 @@ val map_singleton :
 val list_to_map :
   ('a1, 'a2, 'a3) insert -> 'a3 empty -> ('a1 * 'a2) list -> 'a3
 
-val map_size : ('a1, 'a2, 'a3) finMapToList -> 'a3 size
+val map_size : ('a1, 'a2, 'a3) finMapToList -> 'a3 size0
 
 val map_union_with : 'a1 merge -> ('a2, 'a1) unionWith
 
@@ -957,27 +1000,6 @@ val step : params -> afs -> call -> hint -> afs * reply
 val set_unstable : afs -> bool -> afs
 
 val init_afs : bool -> afs
-
-val w : n
-
-val w64 : n -> n
-
-type fsSuper = { size1 : n; nLog : n; nBlockBitmap : n; nInodeBitmap : 
-                 n; nInodeBlk : n; maxaddr : n }
-
-val mkFsSuper : n -> fsSuper
-
-val bitmapBlockStart : fsSuper -> n
-
-val bitmapInodeStart : fsSuper -> n
-
-val inodeStart : fsSuper -> n
-
-val dataStart : fsSuper -> n
-
-val nInode : fsSuper -> n
-
-val inum2Addr : fsSuper -> n -> n * n
 
 type disk = (n, bytes) gmap
 
